@@ -171,14 +171,19 @@ fn one_case(_ctx: &Ctx, case: u64, r: &mut Rng, rep: &mut Report) {
     };
     let idx_files = base[0].ids(FileType::Index);
     let k = idx_files.len();
-    let subsets: Vec<u32> = if k == 0 {
+    // subsets as membership vectors (with hook H6 a repository can hold far more than 32 index files)
+    let subsets: Vec<Vec<bool>> = if k == 0 {
         vec![]
     } else if k <= 4 {
-        (1u32..(1 << k)).collect()
+        (1u32..(1 << k)).map(|m| (0..k).map(|i| m & (1 << i) != 0).collect()).collect()
     } else {
-        let mut v = vec![(1u32 << k) - 1];
+        let mut v = vec![vec![true; k]];
         for _ in 0..6 {
-            v.push(1 + r.below((1u64 << k) - 1) as u32);
+            let mut s: Vec<bool> = (0..k).map(|_| r.chance(1, 2)).collect();
+            if !s.iter().any(|b| *b) {
+                s[r.usize_below(k)] = true;
+            }
+            v.push(s);
         }
         v
     };
@@ -186,7 +191,7 @@ fn one_case(_ctx: &Ctx, case: u64, r: &mut Rng, rep: &mut Report) {
         let mut st = base.clone();
         let mut removed = 0;
         for (i, id) in idx_files.iter().enumerate() {
-            if mask & (1 << i) != 0 {
+            if mask[i] {
                 let _ = st[0].del(FileType::Index, id);
                 removed += 1;
             }
